@@ -18,11 +18,17 @@ State that is constant after `DataLoader.open()` on an indexed file (`have_index
 the "postponed filter" branch (`filters_applied = False`) does not appear.  `max_bytes = None`,
 `return_bytes = False` in every modelled call (the keys are present in `Params` with those values).
 
-`Variant` switches the five repairs made to the code on or off; `Variant.current` (all on) is the
+`Variant` switches the six repairs made to the code on or off; `Variant.current` (all on) is the
 code as it is, `Variant.legacy` (all off) the code before the repairs.  `Variant.current` is compared
-with the working tree on every run; the variants 00000, 10000, 11000, 11100, 11110 were compared once
-with the repository commits 7b12b66, aa1fd47, de0a08a, f5bc4ad, c531000 (1214 call histories each, no
-difference; `C12_VARIANT=<bits> FE_REPO=<worktree at that commit> ./check C12`).
+with the working tree on every run; the variants 00000, 10000, 11000, 11100, 11110 (sixth bit 0) were
+compared once with the repository commits 7b12b66, aa1fd47, de0a08a, f5bc4ad, c531000 (1214 call
+histories each, no difference; `C12_VARIANT=<bits> FE_REPO=<worktree at that commit> ./check C12`), and
+111110 is the code before the sixth repair (positive `max_messages` no longer cuts the index).
+
+The set of available source identifiers (`Reader.available`, the default of `source_ids`) is sampled by
+the reader from the first messages of each type when the file is opened and never changes afterwards:
+it is a function of the log, not part of the state a call can modify.  A log may contain identifiers
+that are not in it; a read with the default then leaves their messages out (at read time).
 -/
 namespace FeVerif.Loader
 
@@ -115,10 +121,11 @@ structure Variant where
   newOnly : Bool       -- only entries created by this call are filled and converted
   sliceExact : Bool    -- index slice for max_messages only when nothing is tested at read time
   dequeFull : Bool     -- the last-N buffer sees the whole stream (no early `break`)
+  sliceNonPos : Bool   -- the index is cut only for N ≤ 0; for N > 0 the running counter ends the read
   deriving DecidableEq, Repr
 
-def Variant.current : Variant := ⟨true, true, true, true, true⟩
-def Variant.legacy : Variant := ⟨false, false, false, false, false⟩
+def Variant.current : Variant := ⟨true, true, true, true, true, true⟩
+def Variant.legacy : Variant := ⟨false, false, false, false, false, false⟩
 
 /-- `MessageData`. `arrays` = the messages the numpy members were last computed from (after NaN
 removal), `none` while `to_numpy` has not run; `idxArr` = `message_index` is an `ndarray`
@@ -228,11 +235,19 @@ def indexFiltered (rd : Reader) (log : List Entry) (e : Eff) (sysReq : Bool) : L
   let byType := (rd.timeSel e.timeRange log).filter (fun x => e.types.contains x.type)
   if e.requireP1 && !sysReq && rd.dropsUntimed then byType.filter (fun x => x.time.isSome) else byType
 
-/-- Is the index cut to `max_messages` entries before reading (`reader_max_messages_applied`)? -/
+/-- `max_messages <= 0` -/
+def nonPos : Option Int → Bool
+  | some n => decide (n ≤ 0)
+  | none => false
+
+/-- Is the index cut to `max_messages` entries before reading?  (`reader_max_messages_applied`, which the
+code also sets for N > 0 without cutting anything since the sixth repair: there the flag is only looked
+at for N < 0.) -/
 def sliceApplied (v : Variant) (rd : Reader) (log : List Entry) (e : Eff) (sysReq : Bool) : Bool :=
   e.maxMessages.isSome &&
     (if v.sliceExact then !e.requireP1 && !e.requireSys && e.srcs == rd.available log
-     else !(e.requireSys && sysReq))
+     else !(e.requireSys && sysReq)) &&
+    (!v.sliceNonPos || nonPos e.maxMessages)
 
 /-- Conditions tested per message while reading (`_read_next`: source identifier, `require_*`;
 `_read`: `payload is None`). -/
